@@ -8,5 +8,5 @@ def run(ctx):
                 "placement scenarios; after EVERY operation the full bookkeeping dump (virtual list, simulated list, registers with exact generator "
                 "matrices, counters) is compared with the Coq model and the joint state with an ideal single-register state-vector simulator; "
                 "a case = one executed operation; distinct = distinct (capacities, operation, resulting dump)")
-    netprop.run_property(ctx, "C01", ["merge", "mixed", "merge", "stale"], 1500 if t else 150, 30 if t else 24,
-                         scenarios=scen.placement_cases() + scen.forwarding() + scen.register_limit() + scen.big_merge(), own_props=["C01"])
+    netprop.run_property(ctx, "C01", ["merge", "mixed", "merge", "stale", "registers"], 1500 if t else 150, 30 if t else 24,
+                         scenarios=scen.placement_cases() + scen.forwarding() + scen.register_limit() + scen.big_merge() + scen.register_api(), own_props=["C01"])
